@@ -151,9 +151,7 @@ func runShared(rc *RunCtx, sc *shScenario) *shOutcome {
 	s.Tracing = rc.Tracing
 	s.Free = sc.Race
 	out := &shOutcome{}
-	modbus.SimBeforeLock = func(l *sync.RWMutex, write bool) { s.BeforeLock(l, write, "client") }
-	modbus.SimAfterLock = s.AfterLock
-	defer func() { modbus.SimBeforeLock, modbus.SimAfterLock = nil, nil }()
+	defer s.Activate()()
 
 	fr := sc.Kind.Framing()
 	var devMu sync.Mutex
